@@ -3682,6 +3682,9 @@ static int bufr_load_datasubsets( FILE *fp, BUFR_Dataset *dts, int lineno, BUFR_
             }
          fseek( fp, - strlen(ligne), SEEK_CUR );
          arr_free( &dstrptr );
+         bufr_free_sequence( bsq );
+         bufr_free_BufrDDOp( ddo );
+         if (kptr != NULL) free( kptr );
          return 1;
          }
 
@@ -3777,6 +3780,10 @@ static int bufr_load_datasubsets( FILE *fp, BUFR_Dataset *dts, int lineno, BUFR_
                   icode, cb->descriptor );
          bufr_print_debug( errmsg );
          arr_free( &dstrptr );
+         bufr_free_sequence( bsq );
+         bufr_free_sequence( bsq2 );
+         bufr_free_BufrDDOp( ddo );
+         if (kptr != NULL) free( kptr );
          return -1;
          }
 
@@ -4050,6 +4057,10 @@ static int bufr_load_datasubsets( FILE *fp, BUFR_Dataset *dts, int lineno, BUFR_
          if (tmplist == NULL)
             {
             arr_free( &dstrptr );
+            bufr_free_sequence( bsq );
+            bufr_free_sequence( bsq2 );
+            bufr_free_BufrDDOp( ddo );
+            if (kptr != NULL) free( kptr );
             return -1;
             }
          bsq2->list = tmplist;
